@@ -61,7 +61,7 @@ def h8Region (b : Block) : Option String :=
   let h : Expr → Option String → Expr × Option String := fun e s =>
     (e, match s with
       | some w => some w
-      | none => if C08.h8 Evaluator.floatEvalOps e then none else some "H8 of the evaluator (C08: F1-F4)")
+      | none => if C08.h8 Evaluator.floatEvalOps e then none else some "H8 of the evaluator (C08: reference equality of fresh tables across effects)")
   (Visitor.runDefault ({ expr := h, pref := h, target := h, node := h } : Processor (Option String)) b none).2
 
 /-- the hypothesis `H` of the rule's theorem on this block: `in`, or `out <why>` -/
